@@ -1150,6 +1150,12 @@ func (g *Gen) callTermBases(c *ssa.CallCommon, inLoop func(ssa.Value) bool) map[
 							}
 						}
 						env.vars[n] = g.val(actuals[i])
+					} else if i < len(actuals) {
+						// an argument the loop body loads through fields of an object defined outside the loop
+						// (cl.State.Inflight): its value as a function of the state
+						if s, ok := g.fieldPathTerm(actuals[i], inLoop, st); ok {
+							env.vars[n] = Val{T: actuals[i].Type(), S: s}
+						}
 					}
 				}
 				_, idx, whole, err := g.locOf(env, le)
@@ -1167,6 +1173,57 @@ func (g *Gen) callTermBases(c *ssa.CallCommon, inLoop func(ssa.Value) bool) map[
 		out[h] = nil
 	}
 	return out
+}
+
+// fieldPathTerm: the value of v in state st when v is computed, possibly inside a loop, by loading through fields of an
+// object that is defined outside the loop (cl.State.Inflight, x.root.particles): a pure function of the heap.  The
+// reference of an embedded struct is its sub-reference; a pointer-typed field is read from its field heap in st.
+func (g *Gen) fieldPathTerm(v ssa.Value, inLoop func(ssa.Value) bool, st *State) (string, bool) {
+	if !inLoop(v) {
+		if _, isInstr := v.(ssa.Instruction); isInstr {
+			if _, done := g.vals[v]; !done {
+				return "", false
+			}
+		}
+		val := g.val(v)
+		if val.Addr != nil {
+			return "", false
+		}
+		return val.S, true
+	}
+	switch x := v.(type) {
+	case *ssa.FieldAddr:
+		// only addresses of embedded structs are values here (their sub-reference); other field addresses are loaded below
+		stT := x.X.Type().Underlying().(*types.Pointer).Elem()
+		f := stT.Underlying().(*types.Struct).Field(x.Field)
+		if _, isStruct := f.Type().Underlying().(*types.Struct); !isStruct {
+			return "", false
+		}
+		base, ok := g.fieldPathTerm(x.X, inLoop, st)
+		if !ok {
+			return "", false
+		}
+		return g.subRef(stT, x.Field, base), true
+	case *ssa.UnOp:
+		if x.Op != token.MUL {
+			return "", false
+		}
+		fa, ok := x.X.(*ssa.FieldAddr)
+		if !ok {
+			return "", false
+		}
+		stT := fa.X.Type().Underlying().(*types.Pointer).Elem()
+		f := stT.Underlying().(*types.Struct).Field(fa.Field)
+		if _, isStruct := f.Type().Underlying().(*types.Struct); isStruct || g.sortOf(f.Type()) != "Int" {
+			return "", false // only references (pointers, maps, channels)
+		}
+		base, ok := g.fieldPathTerm(fa.X, inLoop, st)
+		if !ok {
+			return "", false
+		}
+		return fmt.Sprintf("(select %s %s)", g.heapGet(st, g.fieldHeap(stT, fa.Field)), base), true
+	}
+	return "", false
 }
 
 func (g *Gen) cellName(x *ssa.Alloc) string {
